@@ -825,6 +825,31 @@ def fam_eig3(cx, rng, n, cls):
   return dict(kind=kind), True, ['eig3:' + kind] + (['eig3:500-iterations'] if it >= 500 else [])
 
 
+def reference_boxqp(H, g, lower, upper):
+  """Exact optimum of the box QP by enumerating active sets (n <= 7), used only to quantify a reported defect."""
+  import itertools
+  n = len(g)
+  if n > 7:
+    return None
+  lo = np.full(n, -np.inf) if lower is None else lower
+  up = np.full(n, np.inf) if upper is None else upper
+  best, bestf = None, np.inf
+  for act in itertools.product((0, 1, 2), repeat=n):
+    act = np.array(act)
+    if np.any((act == 1) & ~np.isfinite(lo)) or np.any((act == 2) & ~np.isfinite(up)):
+      continue
+    x = np.where(act == 1, lo, np.where(act == 2, up, 0.0))
+    x = np.where(np.isfinite(x), x, 0.0)
+    fr = act == 0
+    if fr.any():
+      x[fr] = np.linalg.solve(H[np.ix_(fr, fr)], -(g[fr] + H[np.ix_(fr, ~fr)] @ x[~fr]))
+    if np.all(x >= lo - 1e-12) and np.all(x <= up + 1e-12):
+      f = 0.5 * x @ H @ x + g @ x
+      if f < bestf:
+        best, bestf = x, f
+  return best
+
+
 def fam_boxqp(cx, rng, n, cls):
   L = cx.lib
   n = int(rng.choice([1, 2, 3, 4, 5, 6, 7, 9, 12]))
@@ -850,13 +875,15 @@ def fam_boxqp(cx, rng, n, cls):
   if mode == 'one_sided':
     lower, upper = (lower, None) if rng.rand() < 0.5 else (None, upper)
   res = np.ascontiguousarray(rng.normal(size=n) * 3)              # warm start, possibly infeasible (documented: clamped)
+  warm = res.copy()
   Hin = np.ascontiguousarray(H.copy())
   Hin[np.triu_indices(n, 1)] = 1e300 if rng.rand() < 0.5 else H[np.triu_indices(n, 1)]     # documented: only the lower triangle is read
   R = np.full(n * (n + 7) + 2, GUARD)
   index = np.full(n + 1, -7, dtype=np.int32)
-  w = lambda: 'n=%d mode=%s H=%s g=%s lower=%s upper=%s' % (n, mode, H.tolist(), g.tolist(), None if lower is None else lower.tolist(),
-                                                            None if upper is None else upper.tolist())
-  nfree = L.mju_boxQP(res, R, index if rng.rand() < 0.8 else None, Hin, np.ascontiguousarray(g), n, lower, upper)
+  w = lambda: 'n=%d mode=%s H=%s g=%s lower=%s upper=%s warmstart=%s' % (
+      n, mode, H.tolist(), g.tolist(), None if lower is None else lower.tolist(), None if upper is None else upper.tolist(), warm.tolist())
+  gin = np.ascontiguousarray(g)
+  nfree = L.mju_boxQP(res, R, index if rng.rand() < 0.8 else None, Hin, gin, n, lower, upper)
   if R[n * (n + 7)] != GUARD or index[n] != -7:
     raise Violation('mju_boxQP wrote past the documented allocation sizes; %s' % w(), bucket='boxQP-overrun')
   if nfree < 0:
@@ -867,22 +894,55 @@ def fam_boxqp(cx, rng, n, cls):
   G = H @ res + g
   sc = np.abs(H) @ np.abs(res) + np.abs(g)
   tol = 1e-6 * (1 + sc)
-  atlo = (res == lower) if lower is not None else np.zeros(n, dtype=bool)
-  atup = (res == upper) if upper is not None else np.zeros(n, dtype=bool)
-  free = ~(atlo | atup)
-  bad = (free & (np.abs(G) > tol)) | (atlo & (G < -tol)) | (atup & (G > tol))
-  cx.note('boxQP-kkt', float(np.max(np.where(free, np.abs(G), np.where(atlo, -G, G)) / tol)))
+  # Bound activity up to rounding: an iterate is formed as x + step*search and then clamped, so a coordinate that belongs on a
+  # bound may sit a few ulps inside it.  A coordinate within BOUND_ULPS * eps * (|bound| + |x_warm| + 1) of a bound counts as "at
+  # the bound" (the scale covers the magnitudes that were added to form it); the objective changes by < |G| * that distance.
+  BOUND_ULPS = 64
+  bscale = BOUND_ULPS * EPS * (1 + np.abs(warm) + np.abs(res))
+  atlo = (res - lower <= bscale + BOUND_ULPS * EPS * np.abs(lower)) if lower is not None else np.zeros(n, dtype=bool)
+  atup = (upper - res <= bscale + BOUND_ULPS * EPS * np.abs(upper)) if upper is not None else np.zeros(n, dtype=bool)
+  both = atlo & atup                       # bounds closer together than the tolerance: either sign of the gradient is fine
+  strict_in = ~(atlo | atup)
+  bad = (strict_in & (np.abs(G) > tol)) | (atlo & ~both & (G < -tol)) | (atup & ~both & (G > tol))
+  viol = np.where(strict_in, np.abs(G), np.where(both, 0.0, np.where(atlo, -G, G)))
   if np.any(bad):
     i = int(np.flatnonzero(bad)[0])
-    raise Violation('mju_boxQP result is not a KKT point: x[%d]=%r (lower %r upper %r) gradient %r; %s' % (
-        i, float(res[i]), None if lower is None else float(lower[i]), None if upper is None else float(upper[i]), float(G[i]), w()),
-        bucket='boxQP-kkt')
+    msg = 'mju_boxQP returned %d (success) but the result is not a KKT point: worst coordinate x[%d]=%r (lower %r upper %r) gradient %r, ' \
+          'gradient on strictly interior coordinates %s; %s' % (
+              nfree, i, float(res[i]), None if lower is None else float(lower[i]), None if upper is None else float(upper[i]), float(G[i]),
+              G[strict_in].tolist(), w())
+    # classify with the routine's own diagnostics (same inputs, same options as mju_boxQP, plus a log buffer)
+    r2, R2 = warm.copy(), np.zeros(n * (n + 7))
+    log = ctypes.create_string_buffer(1 << 16)
+    nf2 = L.mju_boxQPoption(r2, R2, None, Hin, gin, n, lower, upper, 100, 1e-16, 0.5, 1e-22, 0.1, log, 1 << 16)
+    status = log.value.decode(errors='replace').strip().split('BOXQP:')[-1][:60]
+    stalled = nf2 == nfree and np.array_equal(r2, res) and 'line-search iterations exceeded' in status
+    # Zeno signature: a coordinate hovering strictly inside a bound (not on it) whose Newton step points far outside
+    near = np.zeros(n, dtype=bool)
+    if lower is not None:
+      near |= (res > lower) & (res - lower <= 1e-9 * (1 + np.abs(lower))) & (G > 0)
+    if upper is not None:
+      near |= (res < upper) & (upper - res <= 1e-9 * (1 + np.abs(upper))) & (G < 0)
+    # the class has only been observed on ill-conditioned Hessians (cond 1e5: 5 per 10 000 cases; none in 30 000 cases with cond <= 1e3):
+    # at lower condition numbers the same symptom is judged as an ordinary violation
+    if stalled and near.any() and cond >= 1e4:
+      xo = reference_boxqp(H, g, lower, upper)
+      gap = float(0.5 * res @ H @ res + g @ res - (0.5 * xo @ H @ xo + g @ xo)) if xo is not None else None
+      cx.ck.violation('mju_boxQP stalls ("Maximum line-search iterations exceeded") with a coordinate hovering just inside its bound and still '
+                      'returns nfree >= 0 instead of -1: objective is %s above the optimum. %s' % (gap, msg),
+                      dict(check='linalg', family='boxqp', n=n, mode=mode, cond=cond, H=H.tolist(), g=g.tolist(),
+                           lower=None if lower is None else lower.tolist(), upper=None if upper is None else upper.tolist(),
+                           warmstart=warm.tolist(), result=res.tolist(), nfree=int(nfree), status=status, objective_gap=gap),
+                      bucket='boxQP-stall', fingerprint='C23:boxQP-linesearch-stall-returns-nfree')
+      cx.counters['boxQP line-search stall (known-finding class)'] = cx.counters.get('boxQP line-search stall (known-finding class)', 0) + 1
+      return dict(n=n, mode=mode, nfree=int(nfree)), n % 4 != 0, ['boxqp:' + mode, 'boxqp:linesearch-stall']
+    raise Violation(msg + ' [status: %s]' % status, bucket='boxQP-kkt')
+  cx.note('boxQP-kkt', float(np.max(viol / tol)))
   # returned rank = number of free dimensions (clamped = at a bound with the gradient pushing outward)
-  clamped = (atlo & (G > 0)) | (atup & (G < 0))
-  nclear = int(np.sum((atlo | atup) & (np.abs(G) > tol)))            # unambiguously clamped
+  nclear = int(np.sum((atlo | atup) & ~both & (np.abs(G) > tol)))            # unambiguously clamped
   if not (n - int(np.sum(atlo | atup)) <= nfree <= n - nclear):
     raise Violation('mju_boxQP returned nfree=%d but %d dimensions are strictly inside and %d are clamped with a non-zero multiplier; %s' % (
-        nfree, int(np.sum(free)), nclear, w()), bucket='boxQP-nfree')
+        nfree, int(np.sum(strict_in)), nclear, w()), bucket='boxQP-nfree')
   return dict(n=n, mode=mode, nfree=int(nfree)), n % 4 != 0, ['boxqp:' + mode, 'boxqp:nfree=%s' % ('0' if nfree == 0 else 'n' if nfree == n else 'some')]
 
 
@@ -1084,6 +1144,46 @@ def probe_count_empty_column(ck, cx):
                  bucket='sqrMatTD-count-empty-column', fingerprint='C23:sqrMatTD-count-empty-column')
 
 
+def probe_boxqp_stall(ck, cx):
+  """Deterministic reproducer of known finding 'C23:boxQP-linesearch-stall-returns-nfree' (run in both tiers).
+  Reports only if the routine still claims success (return >= 0) with a result that is not a KKT point; a repaired routine
+  (returns -1, or returns the optimum) makes the KNOWN-FINDING line disappear."""
+  L = cx.lib
+  H = np.array([[1.0, 0.3874992428514351, 0.4848370264568361],
+                [0.3874992428514351, 0.15201454932219916, 0.18570047676925283],
+                [0.4848370264568361, 0.18570047676925283, 0.23765353560001684]])
+  g = np.array([-0.3201231255970611, -0.3078318093429999, -0.18015059175633402])
+  lower = np.array([1.483152989437997, -1.0555667435212879, -2.051096255335706])
+  warm = np.array([2.990086655850101, 2.2583141825851976, 2.1175399567431423])
+  n = 3
+  res = warm.copy()
+  R = np.full(n * (n + 7) + 2, GUARD)
+  nfree = L.mju_boxQP(res, R, None, np.ascontiguousarray(H), g, n, lower, None)
+  if R[n * (n + 7)] != GUARD:
+    raise Violation('mju_boxQP wrote past the documented size of R (probe)', bucket='boxQP-overrun')
+  xo = reference_boxqp(H, g, lower, None)
+  fo = float(0.5 * xo @ H @ xo + g @ xo)
+  G = H @ res + g
+  tol = 1e-6 * (1 + np.abs(H) @ np.abs(res) + np.abs(g))
+  atlo = res - lower <= 64 * EPS * (1 + np.abs(warm) + np.abs(res) + np.abs(lower))
+  feasible = bool(np.all(res >= lower))
+  kkt = feasible and not np.any((~atlo & (np.abs(G) > tol)) | (atlo & (G < -tol)))
+  gap = float(0.5 * res @ H @ res + g @ res) - fo
+  rec = dict(returned=int(nfree), result=res.tolist(), gradient=G.tolist(), kkt=bool(kkt), objective_gap=gap, optimum=xo.tolist())
+  ck.extra['probe_boxqp_stall'] = rec
+  ck.case(nontrivial=True, key=('probe-boxqp-stall',), labels=['probe:boxqp-stall'])
+  if nfree >= 0 and not kkt:
+    ck.violation('mju_boxQP returns %d (success) on the n=3 reproducer although the result is not a KKT point: gradient %s at x=%s with only x[0] on its '
+                 'bound, objective %.6g above the optimum %s (the projected line search stalls with x[0] hovering just inside its bound; '
+                 'MAX_LS_ITER is not mapped to -1)' % (nfree, G.tolist(), res.tolist(), gap, xo.tolist()),
+                 dict(probe='boxQP stall reproducer', H=H.tolist(), g=g.tolist(), lower=lower.tolist(), upper=None, warmstart=warm.tolist(), **rec),
+                 bucket='boxQP-stall', fingerprint='C23:boxQP-linesearch-stall-returns-nfree')
+  elif nfree < 0:
+    ck.label('probe:boxqp-stall:now-reports-failure')
+  else:
+    ck.label('probe:boxqp-stall:now-optimal')
+
+
 FAMILIES = dict(blas=fam_blas, chol=fam_chol, lu=fam_lu, band=fam_band, sparse=fam_sparse, symsparse=fam_symsparse, eig3=fam_eig3,
                 boxqp=fam_boxqp, qcqp=fam_qcqp)
 
@@ -1114,6 +1214,7 @@ def main(ck):
   strat = st.tuples(st.sampled_from(fams), st.sampled_from(SIZES), st.sampled_from(['well', 'well', 'mid', 'ill']), st.integers(0, 2 ** 31 - 1))
   ck.run_hypothesis(test, strat, ck.budget(2500, 150000), name='linalg')
   probe_count_empty_column(ck, cx)
+  probe_boxqp_stall(ck, cx)
   avx_differential(ck, cx)
   ck.extra['constructions'] = dict(cx.counters)
   ck.extra['worst_ratio'] = {k: float('%.3g' % v) for k, v in sorted(cx.worst.items())}
@@ -1134,6 +1235,10 @@ that column's diagonal, but mju_sqrMatTDSparse writes the (zero) diagonal uncond
 (1x1 empty matrix suffices; the row-based mju_sqrMatTDSparse_row is consistent). It is
 decided by a dedicated probe (generous guarded buffers) and reported through that fingerprint; in the random stream this pair receives matrices whose empty columns were filled by
 construction (count in evidence: constructions), while the uncompressed variant, the row-based variant and the Symbolic/Numeric pipeline the engine uses are checked on all patterns.
+Known finding C23:boxQP-linesearch-stall-returns-nfree: on ill-conditioned Hessians (cond 1e5; ~5 per 10 000 cases) the projected line search of mju_boxQP stalls with a
+coordinate hovering just inside its bound and the routine returns nfree >= 0 at a non-optimal point (MAX_LS_ITER is not mapped to -1); a deterministic n=3 probe reports it every run, and in
+the random stream only results with that exact signature (status 'line-search iterations exceeded' + hovering coordinate + cond >= 1e4) go to the fingerprint, everything else is a boxQP-kkt violation.
+Bound activity is judged up to 64 eps (1+|bound|+|x_warm|+|x|).
 Not covered: mju_blockDiag / mju_blockDiagSparse, mju_factorLUSparse / mju_solveLUSparse (tree-topology LU, needs a kinematic tree: exercised through C06),
 mju_cholFactor with a non-trivial mindiag only through the rank count. Rank-one downdates are compared with a tolerance proportional to the condition number and skipped
 above 1e6. QP tolerances are 1e-7..1e-6 relative because the routines stop on absolute thresholds. Trusted: numpy/scipy LAPACK.'''
